@@ -429,7 +429,7 @@ const (
 // address, is written to the local connection before any tunnel byte.
 //
 //verif:contract (*~/client/proxy.BaseProxy).HandleTCPWorkConnection
-//verif:props C01
+//verif:props C01 C05
 func verif_HandleTCPWorkConnection(pxy *BaseProxy, workConn net.Conn, m *msg.StartWorkConn, encKey []byte) {
 	verif.Requires(pxy.baseCfg != nil && m != nil, "constructed_and_message_present")
 	enc, comp := pxy.baseCfg.Transport.UseEncryption, pxy.baseCfg.Transport.UseCompression
@@ -478,4 +478,45 @@ func verif_HandleTCPWorkConnection(pxy *BaseProxy, workConn net.Conn, m *msg.Sta
 	} else if !plugged {
 		verif.Ensures(verif.CalledWith("Conn).Close", 0, workConn), "work_connection_closed_when_not_joined")
 	}
+}
+
+// ---------------------------------------------------------------- C03: the client UDP proxy's work-connection goroutines
+
+// Reader (one arbitrary iteration): the packet handed to the forwarder is a
+// new object read in this iteration - packets of different iterations share
+// nothing, so a datagram still in flight keeps its own payload and its own
+// reply address.
+//
+//verif:loopbody (*~/client/proxy.UDPProxy).InWorkConn$2 1 check=verifClientUDPReaderStep args=readCh
+func verifClientUDPReaderStep(readCh chan *msg.UDPPacket) bool {
+	if !verif.CalledInIter("msg.ReadMsgInto") || verif.IterRet[error]("msg.ReadMsgInto", 0) != nil {
+		return false
+	}
+	p := verif.IterArg[msg.Message]("msg.ReadMsgInto", 1)
+	pk, ok := p.(*msg.UDPPacket)
+	return ok && verif.FreshInIter(pk) && verif.Sent(readCh, pk)
+}
+
+//verif:contract (*~/client/proxy.UDPProxy).InWorkConn$2
+//verif:props C03
+//verif:kinds loop,post,pre
+func verif_client_UDPProxy_reader(conn net.Conn, readCh chan *msg.UDPPacket) {
+	verif.ResetEvents()
+	verif.CallTarget(conn, readCh)
+}
+
+// Sender (one arbitrary iteration): exactly the message taken from the send
+// channel is written to the work connection.
+//
+//verif:loopbody (*~/client/proxy.UDPProxy).InWorkConn$3 1 check=verifClientUDPSenderStep args=conn,rawMsg
+func verifClientUDPSenderStep(conn net.Conn, rawMsg msg.Message) bool {
+	return verif.CalledWithInIter("msg.WriteMsg", 0, conn) && verif.Same(verif.IterArg[any]("msg.WriteMsg", 1), any(rawMsg)) && verif.IterRet[error]("msg.WriteMsg", 0) == nil
+}
+
+//verif:contract (*~/client/proxy.UDPProxy).InWorkConn$3
+//verif:props C03
+//verif:kinds loop,post,pre
+func verif_client_UDPProxy_sender(conn net.Conn, sendCh chan msg.Message) {
+	verif.ResetEvents()
+	verif.CallTarget(conn, sendCh)
 }
